@@ -75,6 +75,10 @@ func main() {
 		}
 		return
 	}
+	if *dump == "switchatoms" {
+		dumpSwitchAtoms(P)
+		return
+	}
 	if *dump == "codeccalls" {
 		dumpCodecCalls(P)
 		return
